@@ -2,99 +2,200 @@
  * BEFORE the real source file): trusted libc hand models used by version_parse and
  * the ghost specification of "well-formed version string".
  *
- * Nothing here is repository code.  The two libc models and the two scanners are
- * also compiled natively (native/c14_vspec_native.c) and compared with glibc and
- * with the real version_parse on every string over a 9-letter alphabet. */
+ * Nothing here is repository code.  The two libc models and the scanners are also
+ * compiled natively (native/c14_vspec_native.c) and compared with glibc and with the
+ * real version_parse on every string of length <= 8 over a 9-letter alphabet. */
 #ifndef C14_VSPEC_C
 #define C14_VSPEC_C
 
 #ifndef VP_N
 #define VP_N 12            /* strings under proof: at most VP_N bytes including the NUL */
 #endif
+_Static_assert(LONG_MAX == 9223372036854775807L && INT_MAX == 2147483647, "LP64 expected");
 
 #ifndef C14_NATIVE_NAMES   /* the native cross-check renames the models to compare with glibc */
 #define m_strtok_r strtok_r
 #define m_strtol   strtol
 #endif
+#ifndef MODEL_ASSERT
+#define MODEL_ASSERT(c, msg) __CPROVER_assert((c), "libc model applicability: " msg)
+#endif
+#ifndef MODEL_SAME_OBJECT
+#define MODEL_SAME_OBJECT(p, q) __CPROVER_same_object((p), (q))
+#endif
 
-/* ---- trusted: strtok_r, POSIX.1-2008 (CBMC ships no body) ---- */
+/* ------------------------------------------------------------------------
+ * Decimal value of the run of digits s[a..b)  (a < b, all digits).
+ *   vp_dec_over(s,a,b,neg): the value exceeds LONG_MAX (LONG_MAX+1 if neg)
+ *   vp_dec_mag(s,a,b,neg):  the value (unspecified if vp_dec_over)
+ * version_parse does no arithmetic on digits itself (strtol does).  Under CBMC the
+ * value of a run is therefore an UNINTERPRETED function of (the bytes of the run,
+ * a, b), used by the strtol model and by the specification alike: what is proved
+ * holds for every such function, in particular for the decimal value, and the SAT
+ * problem loses the 64-bit multiply-add chains whose equivalence cost > 3 min at
+ * VP_N = 12.  The only property of the decimal value that is used, "not over =>
+ * mag <= limit", is built into vp_dec_mag by clamping (the identity on the real
+ * function).  -DVP_CONCRETE_ARITH (a thorough-tier group) and the native
+ * cross-check use the real arithmetic.
+ * ------------------------------------------------------------------------ */
+#define VP_LIM(neg) ((neg) ? (unsigned long) LONG_MAX + 1UL : (unsigned long) LONG_MAX)
+#if defined(__CPROVER__) && !defined(VP_CONCRETE_ARITH)
+_Static_assert(VP_N >= 8 && VP_N <= 16, "vp_pack packs the string into two 64-bit words");
+unsigned long __CPROVER_uninterpreted_dec_mag(unsigned long w0, unsigned long w1, int a, int b);
+_Bool __CPROVER_uninterpreted_dec_over(unsigned long w0, unsigned long w1, int a, int b, _Bool neg);
+/* the bytes of s[a..b) at their own positions, everything else zero */
+static unsigned long vp_pack(const char *s, int a, int b, int word)
+{
+	unsigned long w = 0;
+	for (int k = 0; k < VP_N; k++) {
+		if (k / 8 != word)
+			continue;
+		if (k >= a && k < b)
+			w |= ((unsigned long) (unsigned char) s[k]) << (8 * (k % 8));
+	}
+	return w;
+}
+static int vp_dec_over(const char *s, int a, int b, int neg)
+{
+	return __CPROVER_uninterpreted_dec_over(vp_pack(s, a, b, 0), vp_pack(s, a, b, 1), a, b, neg != 0);
+}
+static unsigned long vp_dec_mag(const char *s, int a, int b, int neg)
+{
+	unsigned long m = __CPROVER_uninterpreted_dec_mag(vp_pack(s, a, b, 0), vp_pack(s, a, b, 1), a, b);
+	return m > VP_LIM(neg) ? VP_LIM(neg) : m;
+}
+#else
+/* acc*10+d <= limit, without a run-time division: LONG_MAX = 10 * VP_Q + 7 */
+#define VP_Q 922337203685477580UL
+#define VP_FITS_LONG(acc, d, neg) ((acc) < VP_Q || ((acc) == VP_Q && (d) <= ((neg) ? 8UL : 7UL)))
+static int vp_dec_over(const char *s, int a, int b, int neg)
+{
+	unsigned long acc = 0;
+	for (int k = 0; k < VP_N; k++) {
+		if (k < a || k >= b)
+			continue;
+		unsigned long d = (unsigned long) (s[k] - '0');
+		if (!VP_FITS_LONG(acc, d, neg))
+			return 1;
+		acc = acc * 10UL + d;
+	}
+	return 0;
+}
+static unsigned long vp_dec_mag(const char *s, int a, int b, int neg)
+{
+	unsigned long acc = 0;
+	for (int k = 0; k < VP_N; k++) {
+		if (k < a || k >= b)
+			continue;
+		unsigned long d = (unsigned long) (s[k] - '0');
+		if (!VP_FITS_LONG(acc, d, neg))
+			return VP_LIM(neg);
+		acc = acc * 10UL + d;
+	}
+	return acc;
+}
+#endif
+
+/* ------------------------------------------------------------------------
+ * Trusted libc models.  Both are written position by position over the buffer being
+ * tokenized (constant indices 0..VP_N-1 guarded by comparisons with the scan
+ * position) instead of walking a pointer, which keeps every character read at a
+ * constant offset.  They assert their own applicability (string ends within VP_N
+ * bytes, strtol is applied to a token of the buffer strtok_r is splitting, base 10,
+ * at most two delimiters): a violated model assertion fails the group, it can never
+ * make it pass.
+ * ------------------------------------------------------------------------ */
+char *m_base;              /* start of the buffer strtok_r is splitting */
+int m_pos;                 /* scan position: *save == m_base + m_pos */
+#define MODEL_FRAME m_base, m_pos
+
+/* ---- strtok_r, POSIX.1-2008 (CBMC ships no body) ---- */
 char *m_strtok_r(char *s, const char *delim, char **save)
 {
-	if (s == NULL)
-		s = *save;
-	/* skip leading delimiters */
-	for (;; s++) {
-		char c = *s;
-		if (c == '\0') {
-			*save = s;
-			return NULL;
-		}
-		int isdelim = 0;
-		for (const char *d = delim; *d != '\0'; d++)
-			if (*d == c)
-				isdelim = 1;
-		if (!isdelim)
-			break;
+	if (s != NULL) {
+		m_base = s;
+		m_pos = 0;
+	} else {
+		MODEL_ASSERT(*save == m_base + m_pos, "strtok_r continues the string it started");
 	}
-	char *tok = s;
-	/* the token ends at the next delimiter (overwritten with NUL) or at the end */
-	for (;; s++) {
-		char c = *s;
+	char d0 = delim[0];
+	char d1 = (d0 == '\0') ? '\0' : delim[1];
+	MODEL_ASSERT(d1 == '\0' || delim[2] == '\0', "strtok_r with at most two delimiters");
+	int start = -1;
+	for (int k = 0; k < VP_N; k++) {
+		if (k < m_pos)
+			continue;
+		char c = m_base[k];
+		int isdelim = (c != '\0' && (c == d0 || c == d1));
 		if (c == '\0') {
-			*save = s;
-			return tok;
+			/* end of the string: the last token, or none */
+			m_pos = k;
+			*save = m_base + k;
+			return start < 0 ? NULL : m_base + start;
 		}
-		int isdelim = 0;
-		for (const char *d = delim; *d != '\0'; d++)
-			if (*d == c)
-				isdelim = 1;
-		if (isdelim)
-			break;
+		if (start < 0) {
+			if (!isdelim)
+				start = k;          /* leading delimiters are skipped */
+		} else if (isdelim) {
+			m_base[k] = '\0';           /* the token ends here */
+			m_pos = k + 1;
+			*save = m_base + k + 1;
+			return m_base + start;
+		}
 	}
-	*s = '\0';
-	*save = s + 1;
-	return tok;
+	MODEL_ASSERT(0, "string ends within VP_N bytes (strtok_r)");
+	return NULL;
 }
 
-/* ---- trusted: strtol, ISO C11 7.22.1.4, base 10 only.
+/* ---- strtol, ISO C11 7.22.1.4, base 10 only.
  * CBMC's shipped model is NOT used: for a subject sequence without digits (" ",
  * "+", "-") it stores nptr+k in *endptr where ISO C requires nptr, which would make
  * version_parse look as if it accepted "+.1.2". */
 long m_strtol(const char *nptr, char **endptr, int base)
 {
-	__CPROVER_assert(base == 10, "strtol model: base 10 only");
-	const char *p = nptr;
-	while (*p == ' ' || (*p >= '\t' && *p <= '\r'))
-		p++;
+	MODEL_ASSERT(base == 10, "strtol in base 10");
+	MODEL_ASSERT(MODEL_SAME_OBJECT(nptr, m_base), "strtol on a token of the strtok_r buffer");
+	long off = nptr - m_base;
+	MODEL_ASSERT(off >= 0 && off < VP_N, "strtol on a token of the strtok_r buffer (offset)");
+	int ph = 0;            /* 0 white space, 1 after the sign, 2 in the digits */
 	int neg = 0;
-	if (*p == '+' || *p == '-') {
-		neg = (*p == '-');
-		p++;
+	int a = -1, b = -1;    /* the digits are m_base[a..b) */
+	for (int k = 0; k < VP_N; k++) {
+		if (k < off)
+			continue;
+		char c = m_base[k];
+		if (ph == 0 && (c == ' ' || (c >= '\t' && c <= '\r')))
+			continue;
+		if (ph == 0 && (c == '+' || c == '-')) {
+			neg = (c == '-');
+			ph = 1;
+			continue;
+		}
+		if (c >= '0' && c <= '9') {
+			if (ph != 2)
+				a = k;
+			ph = 2;
+			continue;
+		}
+		b = k;         /* first character that is not part of the number (maybe the NUL) */
+		break;
 	}
-	if (!(*p >= '0' && *p <= '9')) {
+	MODEL_ASSERT(b >= 0, "string ends within VP_N bytes (strtol)");
+	if (ph != 2) {
 		if (endptr != NULL)
-			*endptr = (char *) nptr;   /* no conversion */
+			*endptr = (char *) nptr;       /* no digits: no conversion */
 		return 0;
 	}
-	unsigned long acc = 0;                 /* magnitude; limit is LONG_MAX (+1 if negative) */
-	unsigned long lim = neg ? (unsigned long) LONG_MAX + 1UL : (unsigned long) LONG_MAX;
-	int over = 0;
-	for (; *p >= '0' && *p <= '9'; p++) {
-		unsigned long d = (unsigned long) (*p - '0');
-		if (!over && acc > (lim - d) / 10UL)
-			over = 1;
-		if (!over)
-			acc = acc * 10UL + d;
-	}
 	if (endptr != NULL)
-		*endptr = (char *) p;
-	if (over) {
+		*endptr = m_base + b;
+	if (vp_dec_over(m_base, a, b, neg)) {
 		errno = ERANGE;
 		return neg ? LONG_MIN : LONG_MAX;
 	}
+	unsigned long mag = vp_dec_mag(m_base, a, b, neg);
 	if (neg)
-		return acc == (unsigned long) LONG_MAX + 1UL ? LONG_MIN : -(long) acc;
-	return (long) acc;
+		return mag == (unsigned long) LONG_MAX + 1UL ? LONG_MIN : -(long) mag;
+	return (long) mag;
 }
 
 /* ------------------------------------------------------------------------
@@ -112,34 +213,35 @@ long m_strtol(const char *nptr, char **endptr, int base)
 static int spec_strict(const char *s, int k)
 {
 	/* one pass, position by position (constant indices keep the SAT problem small) */
-	int comp = 0;            /* component being read: 0 major, 1 minor, 2 patch */
-	int ndig = 0;            /* it has at least one digit */
-	long v = 0;
-	long val[3] = { 0, 0, 0 };
-	for (int i = 0; i < VP_N; i++) {
+	int comp = 0;                    /* component being read: 0 major, 1 minor, 2 patch */
+	int a[3] = { -1, -1, -1 };       /* component c is the digit run s[a[c]..b[c]) */
+	int b[3] = { -1, -1, -1 };
+	int done = 0;
+	for (int i = 0; i < VP_N && !done; i++) {
 		char c = s[i];
 		if (c >= '0' && c <= '9') {
-			v = v * 10 + (c - '0');
-			if (v > INT_MAX)
-				return -1;
-			ndig = 1;
+			if (a[comp] < 0)
+				a[comp] = i;
 		} else if (c == '.' && comp < 2) {
-			if (!ndig)
-				return -1;
-			val[comp] = v;
+			if (a[comp] < 0)
+				return -1;       /* empty component */
+			b[comp] = i;
 			comp++;
-			v = 0;
-			ndig = 0;
 		} else if ((c == '\0' || c == '-') && comp == 2) {
-			if (!ndig)
+			if (a[2] < 0)
 				return -1;
-			val[2] = v;
-			return (int) val[k];
+			b[2] = i;
+			done = 1;
 		} else {
 			return -1;
 		}
 	}
-	return -1;               /* not terminated within VP_N bytes */
+	if (!done)
+		return -1;               /* not terminated within VP_N bytes */
+	for (int c = 0; c < 3; c++)
+		if (vp_dec_over(s, a[c], b[c], 0) || vp_dec_mag(s, a[c], b[c], 0) > (unsigned long) INT_MAX)
+			return -1;       /* does not fit an int */
+	return (int) vp_dec_mag(s, a[k], b[k], 0);
 }
 
 /* spec_actual(s, k): the language the code at the pinned commit really accepts (FINDING,
@@ -158,7 +260,7 @@ static int spec_actual(const char *s, int k)
 	int comp = 0;
 	int ph = 0;              /* 0 before the number, 1 in its white space, 2 after its sign, 3 in its digits */
 	int neg = 0;
-	unsigned long acc = 0;
+	int a = -1;
 	int val[3] = { 0, 0, 0 };
 	for (int i = 0; i < VP_N; i++) {
 		char c = s[i];
@@ -175,17 +277,17 @@ static int spec_actual(const char *s, int k)
 			continue;
 		}
 		if (c >= '0' && c <= '9') {
-			unsigned long d = (unsigned long) (c - '0');
-			unsigned long lim = neg ? (unsigned long) LONG_MAX + 1UL : (unsigned long) LONG_MAX;
-			if (acc > (lim - d) / 10UL)
-				return -1;                               /* does not fit a long: refused */
-			acc = acc * 10UL + d;
+			if (ph != 3)
+				a = i;
 			ph = 3;
 			continue;
 		}
 		if (ph == 3 && (isdelim || c == '\0')) {
+			if (vp_dec_over(s, a, i, neg))
+				return -1;                               /* does not fit a long: refused */
+			unsigned long mag = vp_dec_mag(s, a, i, neg);
 			/* L4: conversion long -> int keeps the low 32 bits on this ABI */
-			unsigned int low = (unsigned int) (neg ? 0UL - acc : acc);
+			unsigned int low = (unsigned int) ((neg ? 0UL - mag : mag) & 0xffffffffUL);
 			if (low > (unsigned int) INT_MAX)
 				return -1;                               /* negative (after conversion) */
 			val[comp] = (int) low;
@@ -196,12 +298,32 @@ static int spec_actual(const char *s, int k)
 			comp++;
 			ph = 0;
 			neg = 0;
-			acc = 0;
 			continue;
 		}
 		return -1;
 	}
 	return -1;
+}
+
+/* every maximal run of digits is a number <= INT_MAX (so that the conversion
+ * (int) strtol(..) in version_parse never narrows, whether the string is accepted or not) */
+static int spec_ints_fit(const char *s)
+{
+	int a = -1;
+	for (int i = 0; i < VP_N; i++) {
+		char c = s[i];
+		if (c >= '0' && c <= '9') {
+			if (a < 0)
+				a = i;
+		} else {
+			if (a >= 0 && (vp_dec_over(s, a, i, 0) || vp_dec_mag(s, a, i, 0) > (unsigned long) INT_MAX))
+				return 0;
+			a = -1;
+		}
+		if (c == '\0')
+			return 1;
+	}
+	return 1;
 }
 
 /* NUL within the first VP_N bytes (every byte up to it must be readable) */
@@ -214,8 +336,9 @@ static int spec_terminated(const char *s)
 }
 
 #define VP_WELLFORMED(s)  (spec_strict((s), 0) >= 0)
-/* CARVE-OUT (finding "lenient version_parse"): the strings on which the two languages differ */
-#define VP_CARVE(s)       ((spec_strict((s), 0) >= 0) == (spec_actual((s), 0) >= 0))
+/* CARVE-OUT (finding "lenient version_parse"): the strings on which the two languages
+ * differ, and those holding a number that (int) strtol(..) would narrow */
+#define VP_CARVE(s)       ((spec_strict((s), 0) >= 0) == (spec_actual((s), 0) >= 0) && spec_ints_fit(s))
 #define VP_COMPAT(w0, w1, h0, h1) ((w0) == (h0) && (w1) <= (h1))
 
 /* diagnostics counters: callee contracts that are also used for replacement tolerate
